@@ -194,8 +194,18 @@ def incdec_inst(form, pointee, tier):
                 replay=replay_spec(form, pointee, 'plain', 'int'), note='%s on %s*' % (form, pointee))
 
 
+def same_sandbox_query_inst(tier):
+    # "stays in the sandbox" rests on the same-sandbox query of the core: also for a backend whose query takes the finder as a third
+    # argument (the other arm of rlbox_sandbox::is_in_same_sandbox; contract of C03)
+    from . import C03
+    it = C03.same_sandbox_dispatch_inst(tier)
+    it.name = 'c05_is_in_same_sandbox_finder_backend'
+    it.prop = PROP
+    return it
+
+
 def units(tier):
-    insts = [reversed_operands_inst(tier)]
+    insts = [reversed_operands_inst(tier), same_sandbox_query_inst(tier)]
     if tier == 'quick':
         for idx in ['int', 'unsigned int', 'long', 'unsigned long', 'signed char', 'unsigned short']:
             insts.append(binop_inst('add', 'long', 'plain', idx, tier))
